@@ -13,9 +13,9 @@ from mc.vloop import World
 
 VERSIONS = ["1.1", "1.0"]
 CONNS = [None, "close", "Close", "keep-alive", "Keep-Alive", "close, x", "x, close", "keep-alive, x", "x,keep-alive", "x"]
-METHODS = ["GET", "HEAD", "POST"]
+METHODS = ["GET", "HEAD", "POST", "OPTIONS"]
 BODIES = ["none", "cl", "cl0", "chunked"]
-HANDLERS = ["buffered", "streamed", "early"]
+HANDLERS = ["buffered", "streamed", "early", "earlyflush"]
 PING = b"GET /ping HTTP/1.1\r\nHost: h\r\n\r\n"
 
 
@@ -25,7 +25,7 @@ def make_app():
     class Buffered(web.RequestHandler):
         def go(self):
             self.write("hello")
-        get = head = post = go
+        get = head = post = options = go
 
     class Streamed(web.RequestHandler):
         def go(self):
@@ -33,7 +33,22 @@ def make_app():
             self.flush()
             self.write("llo")
             self.finish()
-        get = head = post = go
+        get = head = post = options = go
+
+    @web.stream_request_body
+    class EarlyFlush(web.RequestHandler):
+        """starts the response before the request body was read, then reads all of it and finishes normally"""
+        def prepare(self):
+            self.write("he")
+            self.flush()
+
+        def data_received(self, chunk):
+            pass
+
+        def go(self):
+            self.write("llo")
+            self.finish()
+        get = head = post = options = go
 
     @web.stream_request_body
     class Early(web.RequestHandler):
@@ -45,13 +60,14 @@ def make_app():
 
         def go(self):
             pass
-        get = head = post = go
+        get = head = post = options = go
 
     class Ping(web.RequestHandler):
         def get(self):
             self.write("pong")
 
-    return web.Application([("/buffered", Buffered), ("/streamed", Streamed), ("/early", Early), ("/ping", Ping)])
+    return web.Application([("/buffered", Buffered), ("/streamed", Streamed), ("/early", Early), ("/earlyflush", EarlyFlush),
+                            ("/ping", Ping)])
 
 
 def request_bytes(version, conn, method, body, handler):
@@ -85,10 +101,13 @@ def decide(version, conn, method, body, nka, handler):
             return "CLOSE", "1.0-without-keep-alive"
         if len(tokens) > 1:
             return "EITHER", "list-valued-keep-alive"
-        if body == "none" and method == "POST":
-            return "EITHER", "1.0-post-without-length"
-        if handler == "streamed" and method != "HEAD":
+        if body == "none" and method not in ("GET", "HEAD"):
+            # "delimited request body" = Content-Length or chunked framing, or a method that never carries a body
+            return "CLOSE", "1.0-request-body-not-delimited"
+        if handler in ("streamed", "earlyflush") and method != "HEAD":
             return "CLOSE", "1.0-response-not-self-delimiting"
+        if handler == "earlyflush":
+            return "EITHER", "1.0-response-started-before-request-read"
     if handler == "early":
         if body in ("cl", "chunked"):
             return "CLOSE", "request-body-not-read"
@@ -133,6 +152,8 @@ def judge(case, obs):
         bad.append(("framing:" + (hard[0] if hard else "none")[:40], "problems %r wire %r" % (probs, out[:120])))
         return bad, verdict, why
     kept = len(rs) == 2
+    if handler == "earlyflush" and method != "HEAD" and first_body(rs) != b"hello":
+        bad.append(("early-flush-body", "response body %r" % (first_body(rs),)))
     if kept and (rs[1].code != 200 or rs[1].body != b"pong"):
         bad.append(("probe-corrupted", "second response %r %r" % (rs[1].code, rs[1].body[:20])))
     if not kept and not closed:
@@ -157,6 +178,10 @@ def judge(case, obs):
     return bad, verdict, why
 
 
+def first_body(rs):
+    return rs[0].body if rs else None
+
+
 def all_cases():
     return itertools.product(VERSIONS, CONNS, METHODS, BODIES, (False, True), HANDLERS)
 
@@ -165,9 +190,10 @@ class C03(Check):
     id = "C03"
     level = "model_checking"
     rule = ("full product: HTTP version {1.1, 1.0} x Connection header {absent, close, Close, keep-alive, Keep-Alive, "
-            "'close, x', 'x, close', 'keep-alive, x', 'x,keep-alive', x} x method {GET, HEAD, POST} x request body "
+            "'close, x', 'x, close', 'keep-alive, x', 'x,keep-alive', x} x method {GET, HEAD, POST, OPTIONS} x request body "
             "{none, Content-Length 5, Content-Length 0, chunked} x no_keep_alive x handler {buffered, streamed "
-            "with flush, stream_request_body handler finishing in prepare}, followed by a pipelined probe request; "
+            "with flush, stream_request_body handler finishing in prepare, stream_request_body handler flushing in prepare "
+            "and finishing after the body}, followed by a pipelined probe request; "
             "thorough adds every single cut of the byte stream; state = one (case, segmentation) execution; "
             "non-trivial = cases where the reference says CLOSE or the Connection header is list-valued")
     claim = ("For every case the observed persistence (probe answered vs connection closed) must equal the "
@@ -175,8 +201,10 @@ class C03(Check):
              "'Connection: close' when the server closes; 'Connection: Keep-Alive' is never sent on a connection "
              "that then closes; 'Connection: close' is never sent on one that is kept.")
     technique = "exhaustive enumeration of the request-feature product on the real code vs a reference decision function"
-    assumptions = ["EITHER: list-valued keep-alive on HTTP/1.0, Transfer-Encoding on HTTP/1.0, HTTP/1.0 POST without "
-                   "length, handler finishing early when the request body is empty",
+    assumptions = ["EITHER: list-valued keep-alive on HTTP/1.0, Transfer-Encoding on HTTP/1.0, handler finishing early "
+                   "when the request body is empty, HTTP/1.0 HEAD response started before the request was read",
+                   "'delimited request body' on HTTP/1.0 = Content-Length or chunked framing, or a method that never "
+                   "carries a body (GET, HEAD); any other method without framing must close",
                    "a handler that finishes before the body was read decides to close after its headers were sent: "
                    "the missing 'Connection: close' is not asserted there"]
 
